@@ -1234,3 +1234,20 @@ def trace_access(f, o, depth=16):
             if r2 is not None:
                 return (r2, p2 + path)
     return (root, path)
+
+
+def tls_key(f, t):
+    """the thread-local static a `KEY.with(..)` call accesses (path of the static), or None"""
+    c = trace_const(f, t["args"][0]) if t.get("args") else None
+    if c is None:
+        return None
+    pb = c.get("promoted_body")
+    if pb:
+        # `&KEY` is a promoted constant of the accessing function: the key is the static it refers to
+        for blk in pb.get("blocks", []):
+            for st in blk.get("stmts", []):
+                rv = st.get("rv") or {}
+                op = rv.get("op") if rv.get("k") == "use" else None
+                if op and op.get("k") == "const" and (op["c"].get("uneval") or op["c"].get("text")):
+                    return str(op["c"].get("uneval") or op["c"].get("text"))
+    return str(c.get("def") or c.get("uneval") or c.get("text") or c.get("val") or "") or None
